@@ -42,7 +42,21 @@ fn case_coq(p: &Problem, o: &Outcome) -> String {
         cfl(o.ktratio), cfl(o.dot_bz), cfl(o.dot_qx), cfl(o.cost_primal), cfl(o.cost_dual), cfl(tau), cfl(kappa),
         hook_ok && o.rollbacks == 0 && o.unscale_calls == 1
     );
-    format!("(run_case {} {} {} {} {})", p.coq(), p.settings.coq(), p.settings.coq_f(), out, infof)
+    let base = format!("(run_case {} {} {} {} {})", p.coq(), p.settings.coq(), p.settings.coq_f(), out, infof);
+    match chain_y(p, o) { Some(y) => format!("(with_chain {} (c_chain {} {} St_{}))", base, p.settings.coq_f(), y, o.status), None => base }
+}
+
+/// the final info state of a real run as a `synthF` record for the full-chain tie / branch coverage
+/// (only when no roll-back happened: after one the stored figures mix two iterates)
+fn chain_y(p: &Problem, o: &Outcome) -> Option<String> {
+    if o.rollbacks != 0 || o.unscale_calls != 1 { return None; }
+    let infof = format!(
+        "(mkInfoF {} {} {} {} {} {} {} {} {} {} {} 1 1 false)",
+        cfl(o.gap_abs), cfl(o.gap_rel), cfl(o.res_primal), cfl(o.res_dual), cfl(o.res_primal_inf), cfl(o.res_dual_inf),
+        cfl(o.ktratio), cfl(o.dot_bz), cfl(o.dot_qx), cfl(o.cost_primal), cfl(o.cost_dual));
+    Some(format!("(mkSynth {} {} {} {} {} {} {} {} {} {} St_Unsolved)", infof, cfl(o.prev_res_primal), cfl(o.prev_res_dual),
+                 cfl(o.prev_gap_abs), cfl(o.prev_gap_rel), cn(o.info_iterations as usize), cfl(o.solve_time),
+                 cn(p.settings.max_iter as usize), cfl(p.settings.time_limit), cn(o.info_iterations as usize)))
 }
 
 fn emit(sink: &mut CaseSink, p: &Problem, o: &Outcome, stats: &mut BTreeMap<String, usize>) { emit_x(sink, p, o, stats, None) }
@@ -63,7 +77,7 @@ fn emit_x(sink: &mut CaseSink, p: &Problem, o: &Outcome, stats: &mut BTreeMap<St
                        ("dynamic_reg", p.settings.dynamic_reg), ("iter_refine", p.settings.iter_refine), ("p_full", p.p_full)] {
         *stats.entry(format!("{}:{}", name, if on { "on" } else { "off" })).or_insert(0) += 1;
     }
-    if o.rollbacks > 0 { *stats.entry("rolled_back".into()).or_insert(0) += 1; }
+    if o.rollbacks > 0 { *stats.entry("rolled_back".into()).or_insert(0) += 1; *stats.entry(format!("rolled_back_final:{}", o.status)).or_insert(0) += 1; }
     let keep = keep_rows(p);
     if keep.iter().any(|k| !*k) { *stats.entry("rows_dropped".into()).or_insert(0) += 1; }
     // direct (Rust-side) facts that need no arithmetic: lengths, keep-map agreement, normalisation
@@ -81,7 +95,8 @@ fn emit_x(sink: &mut CaseSink, p: &Problem, o: &Outcome, stats: &mut BTreeMap<St
         if (o.c - 1.0).abs() > 1e-3 { *stats.entry("update:c_not_1".into()).or_insert(0) += 1; }
     }
     let updj = match upd { Some((b, u)) => json!({"base": b.json(), "update": u.json()}), None => Value::Null };
-    let input = json!({"problem": p.json(), "resolve_after_update": updj, "outcome": o.json(), "status": o.status, "class": p.class, "label": p.label,
+    let cov = match chain_y(p, o) { Some(y) if p.all_finite() && o.vectors_finite() => format!("(cov_chain {} {} St_{})", p.settings.coq_f(), y, o.status), _ => String::new() };
+    let input = json!({"problem": p.json(), "cov": cov, "resolve_after_update": updj, "outcome": o.json(), "status": o.status, "class": p.class, "label": p.label,
                        "n": p.n(), "m": p.m(), "size": size, "kinds": kinds,
                        "direct": {"lengths_ok": n_ok, "keep_agree": keep_agree, "normalised": norm_ok,
                                    "iterations_agree": o.iterations == o.info_iterations, "status_agree": o.status == o.info_status}});
@@ -138,7 +153,8 @@ fn synth(sink: &mut CaseSink, rng: &mut Rng, count: usize, stats: &mut BTreeMap<
         let y = format!("(mkSynth {} {} {} {} {} {} {} {} {} {} St_{:?})", infof, cfl(prev.2), cfl(prev.3), cfl(prev.4), cfl(prev.5),
                         cn(iterations as usize), cfl(solve_time), cn(max_iter as usize), cfl(time_limit), cn(iter as usize), status0);
         let coq = format!("(c_synth {} {} {} St_{})", post, set.coq_f(), y, rust);
-        let input = json!({"synth": {"post": post, "settings": set.json(), "gap_abs": gap_abs, "gap_rel": gap_rel, "res_primal": res_primal, "res_dual": res_dual,
+        let cov = format!("(cov_synth {} {} {})", post, set.coq_f(), y);
+        let input = json!({"cov": cov, "synth": {"post": post, "settings": set.json(), "gap_abs": gap_abs, "gap_rel": gap_rel, "res_primal": res_primal, "res_dual": res_dual,
                                       "res_primal_inf": res_primal_inf, "res_dual_inf": res_dual_inf, "ktratio": ktratio, "dot_bz": dot_bz, "dot_qx": dot_qx,
                                       "prev": [prev.2, prev.3, prev.4, prev.5], "iterations": iterations, "iter": iter, "solve_time": solve_time,
                                       "time_limit": if time_limit.is_finite() { json!(time_limit) } else { json!("inf") }, "status0": format!("{:?}", status0)},
@@ -210,7 +226,7 @@ fn main() {
                 emit(&mut sink, &p, &o, &mut stats);
             }
         }
-        let (nprob, max_size) = if thorough { (count.unwrap_or(2400), 60) } else { (count.unwrap_or(360), 40) };
+        let (nprob, max_size) = if thorough { (count.unwrap_or(2400), 60) } else { (count.unwrap_or(320), 40) };
         let mut rng = Rng::new(seed);
         for idx in 0..nprob {
             let p = stream(&mut rng, idx, max_size);
@@ -219,7 +235,7 @@ fn main() {
         }
         // in-place data updates + re-solve, judged against the data after the update
         let mut rng3 = Rng::new(seed ^ 0xda7a);
-        for idx in 0..(if thorough { 360 } else { 60 }) {
+        for idx in 0..(if thorough { 400 } else { 90 }) {
             let (base, u) = gen_update_case(&mut rng3, idx, max_size);
             let fin = apply_update(&base, &u);
             let o = run_update(&base, &u, 30.0);
